@@ -913,6 +913,7 @@ func (ro *RedisOutput) sendCmdsBatch(replayWait usync.WaitCloser, conn client.Re
 	defer updateCpTicker.Stop()
 
 	cpInDbs := make(map[int]struct{})
+	connDb := ro.startDbId // database the sender connection is in
 
 	// transaction : call sendFunc when command is "exec", never break down a transaction
 	// non-transaction : call sendFunc when queue is full or ticker is delivered
@@ -982,9 +983,13 @@ func (ro *RedisOutput) sendCmdsBatch(replayWait usync.WaitCloser, conn client.Re
 		}
 
 		delayNs := int64(0)
+		dbAfter := connDb
 		for _, ce := range cmdQueue {
 			batcher.Put(ce.Cmd, ce.Args...)
 			cmdCounter++
+			if ce.Cmd == "select" {
+				dbAfter = ce.Db
+			}
 			if ce.syncDelayNs > 0 {
 				if delayNs == 0 || delayNs > ce.syncDelayNs {
 					delayNs = ce.syncDelayNs
@@ -996,12 +1001,11 @@ func (ro *RedisOutput) sendCmdsBatch(replayWait usync.WaitCloser, conn client.Re
 		// a ticker or shutdown flush before that must not overwrite the stored position
 		if shouldUpdateCP && lastOffset >= 0 {
 			if ro.cfg.EnableResumeFromBreakPoint {
-				if len(cmdQueue) > 0 {
-					lastCmd := cmdQueue[len(cmdQueue)-1]
-					if _, ok := cpInDbs[lastCmd.Db]; !ok {
-						cpInDbs[lastCmd.Db] = struct{}{}
-						batcher.Put("hset", checkpointKv.Key, checkpointKv.RunIdKey(), runId, checkpointKv.VersionKey(), config.Version)
-					}
+				// an offset is only usable together with the run id stored in the same
+				// database, so write it with the first checkpoint that goes to a database
+				if _, ok := cpInDbs[dbAfter]; !ok {
+					cpInDbs[dbAfter] = struct{}{}
+					batcher.Put("hset", checkpointKv.Key, checkpointKv.RunIdKey(), runId, checkpointKv.VersionKey(), config.Version)
 				}
 				batcher.Put("hset", checkpointKv.Key, checkpointKv.OffsetKey(), lastOffset)
 			} else {
@@ -1032,6 +1036,7 @@ func (ro *RedisOutput) sendCmdsBatch(replayWait usync.WaitCloser, conn client.Re
 			return err
 		}
 
+		connDb = dbAfter
 		sendOffsetGauge.Set(float64(lastOffset), ro.cfg.InputName)
 		sendSizeCounter.Add(float64(queuedByteSize), ro.cfg.InputName)
 		ro.sendCounterAdd(uint(cmdCounter))
